@@ -232,12 +232,12 @@ static const char *imports_obj_symbol_table_lookup_by_offset(
   int ptr = 0;
   ElfRelocation32 *elf_relocation32;
 
-  while (ptr < relocation_table_size)
+  while (ptr + (int)sizeof(ElfRelocation32) <= relocation_table_size)
   {
     elf_relocation32 = (ElfRelocation32 *)(relocation_table + ptr);
 
     uint32_t r_offset = get_int32_le(elf_relocation32->r_offset);
-    int r_info = get_int32_le(elf_relocation32->r_info);
+    uint32_t r_info = get_int32_le(elf_relocation32->r_info);
 
 #if DEBUG
 int r_type = r_info & 0xff;
@@ -246,15 +246,17 @@ printf("r_offset=0x%04x offset=0x%04x type=%d\n", r_offset, function_offset, r_t
 
     if (r_offset == function_offset)
     {
-      int r_sym = r_info >> 8;
+      // The symbol index is unsigned (24 bits): the whole entry has to be
+      // inside the symbol table, and its name inside the string table.
+      uint32_t r_sym = r_info >> 8;
 
       r_sym *= 16;
 
-      if (r_sym < symbol_table_size)
+      if (r_sym + 16 <= (uint32_t)symbol_table_size)
       {
-        int symbol = get_int32_le(symbol_table + r_sym);
+        uint32_t symbol = get_int32_le(symbol_table + r_sym);
 
-        if (symbol < symbol_string_table_size)
+        if (symbol < (uint32_t)symbol_string_table_size)
         {
           const char *name = (const char *)(symbol_string_table + symbol);
 
